@@ -5,7 +5,7 @@ from ._nodecommon import *
 
 ID = "C08"
 LEAN_MODULES = ["VpnCloud.Proofs.C08"]
-THEOREMS = []
+THEOREMS = ["VpnCloud.Proofs.C08." + n for n in ("node_reject_pure", "unknown_sender_ignored")]
 RULE = ("suite node: receiver states {unknown sender, pending as initiator, pending as responder, established with lingering handshake} x datagram lengths 0..80 (all in thorough) with structured "
         "first bytes (0xff marker, key ids, message types) x random bodies; truncations, length-field corruptions and bit flips of genuine handshake / data / node-info datagrams replayed from every "
         "party incl. the wrong one; random datagrams up to 65000 bytes; attack sequences interleaved with time and traffic; each under catch_unwind; "
